@@ -18,8 +18,8 @@ PID = 'C16'
 def extra_cases():
     out = []
 
-    def T(name, src):
-        out.append(F.C('cf/' + name, src))
+    def T(name, src, **arrays):
+        out.append(F.C('cf/' + name, src, **arrays))
     sent = "empty sentinel() { write('#'); write('#'); all_is_broken(); }\n"
     # bodies whose only exits are inside loops / try / nested blocks; every condition an input
     T('loop-cond-return', "int f(int a, int b) { while (a > 0) { return 1; } return 2; }\n" + sent + "empty @is_you(int a, int b) { sleep(f(a, b)); write('.'); }\n")
@@ -68,6 +68,11 @@ def extra_cases():
       + sent + "empty @is_you(int a, int b) { sleep(@two(a, b)); @other(a); sleep(@two(b, a)); write('.'); }\n")
     T('try-stop-in-untaken-branch', "empty !d(int v) { !truth_is_defeat(v > 0); }\nint @deep(int a, int b) { if (a > 3) { try { !d(b); return 1; } stop { return 2; } } return @inner(b); }\n"
       "int @inner(int b) { try { !d(b); return 3; } stop { write('s'); } try { !d(b - 1); return 4; } stop { return 5; } }\n" + sent + "empty @is_you(int a, int b) { sleep(@deep(a, b)); sleep(@deep(b, a)); write('.'); }\n")
+    # activations of the library routines with boundary arguments (empty arrays of every storage class, empty strings, zero): each returns to its caller
+    for n in (0, 1):
+        T('library-boundary-args-%d' % n, "const byte[] ke = [];\nempty show(const byte[] a) { write('<'); write(a); write('>'); }\n" + sent
+          + "empty @is_you(const byte[] codes, int a) { write(\"first\"); write('['); write(\"\" is byte[]); write(']'); write(ke); write(codes); writeln(codes); show(\"\" is byte[]); show(ke); show(codes); "
+            "byte[] st = []; write(st); show(st); write(\"\"); writeln(\"\"); write(a > 0); write(0); byte dyn[a % 2]; write(dyn.length); write('.'); }\n", codes=n)
     T('last-function', "empty @is_you(int a, int b) { sleep(f(a)); write('.'); }\nint f(int a) { if (a > 0) { return 1; } return 2; }\n")
     return out
 
